@@ -15,8 +15,19 @@ import z3
 from . import sym
 from .sym import EngineLimit, SymBool, SymInt, SymReal, concrete, is_sym, iterm, rterm, wrap
 
+_NP_ARRAY = np.array  # the unshimmed constructor (models must not re-enter the shim)
+
 I0 = z3.Int("__I")
 J0 = z3.Int("__J")
+
+
+def _norm_dtype(dt):
+    n = getattr(dt, "__name__", None)
+    if n == "sym_float":
+        return float
+    if n == "sym_int":
+        return int
+    return dt
 
 
 def _lenterm(n):
@@ -139,6 +150,7 @@ class SymArray:
         return SymArray(self.n, self._elem, self.sort)
 
     def astype(self, dt, *a, **k):
+        dt = _norm_dtype(dt)
         if dt in (float, np.float64, "float", np.floating):
             f = self._elem
             return SymArray(self.n, lambda i: _coerce_sort(f(i), "real"), "real")
@@ -537,6 +549,7 @@ class SymMat:
         self.diag = diag  # elem function of the diagonal if the matrix is diagonal
         self.zero = zero
         self.name = name
+        self.dense = None
 
     @staticmethod
     def fresh(name, nr, nc, fmt="csr"):
@@ -640,6 +653,8 @@ class SymMat:
     def _matmul(self, o):
         if isinstance(o, SymMat):
             _same_len(self.nc, o.nr, "inner matrix dimensions")
+            if self.dense is not None and o.dense is not None:
+                return dense_mat(self.dense.dot(o.dense), self.fmt)
             a, b = self._entry, o._entry
             if self.diag is not None:
                 d = self.diag
@@ -721,7 +736,60 @@ def _m_csr_matrix(arg1, shape=None, dtype=None, copy=False):
     if isinstance(arg1, tuple) and len(arg1) == 2 and all(isinstance(v, (int, np.integer, SymInt)) for v in arg1):
         _used("sps.csr_matrix((m, n)): zero matrix of that shape")
         return SymMat.zeros(arg1[0], arg1[1], "csr")
+    if isinstance(arg1, tuple) and len(arg1) == 2 and isinstance(arg1[1], tuple) and shape is not None:
+        data, (rows, cols) = arg1
+        if all(isinstance(v, (int, np.integer)) for v in shape) and isinstance(data, np.ndarray):
+            _used("sps.csr_matrix((data,(rows,cols)), shape): concrete shape/indices, duplicate coordinates are summed")
+            D = np.empty(tuple(int(v) for v in shape), dtype=object)
+            D[...] = 0
+            for v, r, c in zip(data, np.asarray(rows).tolist(), np.asarray(cols).tolist()):
+                D[int(r), int(c)] = D[int(r), int(c)] + v
+            return dense_mat(D)
     raise EngineLimit("sps.csr_matrix from symbolic data")
+
+
+def dense_mat(D, fmt="csr"):
+    """concrete-shape sparse stand-in backed by a dense object array of proxies/numbers"""
+    D = np.asarray(D, dtype=object)
+    nr, nc = D.shape
+
+    def entry(i, j):
+        ti, tj = z3.simplify(i), z3.simplify(j)
+        if z3.is_int_value(ti) and z3.is_int_value(tj):
+            return rterm(D[ti.as_long(), tj.as_long()])
+        r = z3.RealVal(0)
+        for a in range(nr):
+            for b in range(nc):
+                r = z3.If(z3.And(i == a, j == b), rterm(D[a, b]), r)
+        return r
+
+    m = SymMat(nr, nc, entry, fmt)
+    m.dense = D
+    return m
+
+
+def _m_bmat(blocks, format=None, dtype=None):
+    from .shims import _used
+
+    _used("sps.bmat([[B0, B1, ...]]): one block row, blocks side by side at cumulative column offsets")
+    if not (len(blocks) == 1 and all(isinstance(b, SymMat) for b in blocks[0])):
+        raise EngineLimit("sps.bmat other than a single block row of proxies")
+    bs = list(blocks[0])
+    for b in bs[1:]:
+        _same_len(bs[0].nr, b.nr, "bmat block rows")
+    offs = [0]
+    for b in bs:
+        offs.append(offs[-1] + b.nc)
+    ents = [b._entry for b in bs]
+    offt = [iterm(o) for o in offs]
+
+    def entry(i, j):
+        r = z3.RealVal(0)
+        for k in range(len(bs) - 1, -1, -1):
+            r = z3.If(z3.And(j >= offt[k], j < offt[k + 1]), ents[k](i, j - offt[k]), r)
+        return r
+
+    return SymMat(bs[0].nr, offs[-1], entry, format or "coo")
 
 
 def _m_csc_matrix(arg1, shape=None, dtype=None, copy=False):
@@ -782,7 +850,7 @@ def _m_array(obj, dtype=None, copy=True, **k):
     if is_sym(obj):
         return obj
     if isinstance(obj, (list, tuple)):
-        return np.array(list(obj), dtype=object)
+        return _NP_ARRAY(list(obj), dtype=object)
     if isinstance(obj, np.ndarray):
         return obj.copy()
     raise EngineLimit(f"np.array({type(obj)})")
@@ -899,6 +967,7 @@ def CONSTRUCTOR_MODELS():
         (sps, "diags", _m_diags),
         (sps, "csr_matrix", _m_csr_matrix),
         (sps, "csc_matrix", _m_csc_matrix),
+        (sps, "bmat", _m_bmat),
         (np, "zeros", _m_zeros),
         (np, "ones", _m_ones),
         (np, "array", _m_array),
